@@ -1887,7 +1887,7 @@ def run(ck) -> None:
                 col.record(hc, plan, run_coop(hc, plan, col.wd, pct_chooser(r) if i % 2 else random_chooser(r),
                                               pickfn=lambda n, r=r: r.randrange(n)), "corpus-random")
     # 3. exhaustive exploration of small configurations (all schedules modulo state equality)
-    exhaust_specs = [("tiny", 800)] * 2 if not thorough else [("tiny", 10000)] * 3 + [("small", 6000)] * 2
+    exhaust_specs = [("tiny", 600)] * 2 if not thorough else [("tiny", 10000)] * 3 + [("small", 6000)] * 2
     exhausted = []
     for k, (size, cap_runs) in enumerate(exhaust_specs):
         hc = gen_hc(rng, size, fail=(k % 2 == 1))
@@ -1907,7 +1907,7 @@ def run(ck) -> None:
             break
     ck.coverage["exhaustive_exploration"] = exhausted
     # 4. random and PCT schedules over wider configurations
-    n_cfg = 81 if not thorough else 700
+    n_cfg = 81 if not thorough else 550
     per_cfg = 10 if not thorough else 40
     for i in range(n_cfg):
         if col.failures and len(col.failures) > 3:
